@@ -238,8 +238,9 @@ def write_evidence(prop, mod, ctx, tier, seed, wall, nviol, known_hits):
         "wall_s": round(wall, 3),
         "violations": int(nviol),
     }
-    os.makedirs(os.path.join(ROOT, "evidence"), exist_ok=True)
-    path = os.path.join(ROOT, "evidence", prop + ".json")
+    evdir = os.environ.get("VF_EVIDENCE_DIR") or os.path.join(ROOT, "evidence")
+    os.makedirs(evdir, exist_ok=True)
+    path = os.path.join(evdir, prop + ".json")
     try:
         import jsonschema  # type: ignore
         sp = "/root/.vp/EVIDENCE.schema.json"
@@ -318,6 +319,7 @@ def main(argv=None):
     harness_errors = []
     # 1. regression replays (stored shrunk inputs; plain oracle, no hypothesis)
     rdir = os.path.join(ROOT, "replays", prop)
+    vdir = os.environ.get("VF_VIOL_DIR") or rdir
     nreplayed = 0
     if os.path.isdir(rdir) and hasattr(mod, "replay") and not getattr(mod, "REPLAY_IN_RUN", False):
         for fn in sorted(os.listdir(rdir)):
@@ -369,7 +371,8 @@ def main(argv=None):
             print("KNOWN-FINDING: property=%s %s [%s x%d]" % (prop, k.get("what", ""), b, v["count"]))
             continue
         nviol += 1
-        rpath = os.path.join("replays", prop, "viol-" + safe_name(b) + ".json")
+        rpath = os.path.join(os.path.relpath(vdir, ROOT), "viol-" + safe_name(b) + ".json")
+        os.makedirs(vdir, exist_ok=True)
         with open(os.path.join(ROOT, rpath), "w") as f:
             json.dump({"property": prop, "bucket": b, "msg": v["msg"], "payload": v["payload"]}, f, indent=1)
         print("VIOLATION property=%s replay=%s" % (prop, rpath))
